@@ -43,5 +43,8 @@ void vx_note_cap(void);                         /* a harness-side cap was hit: t
 void vx_tick_reset(void);
 void vx_tick(const char *key);
 extern long vx_tick_ceiling;
+/* for a property that IS termination: an execution without a heartbeat for `seconds` is recorded as a violation under `key`
+ * (path kept, replayed under the same limit) instead of only counting as a timeout.  Call before vx_main. */
+void vx_timeout_is_violation(const char *key, double seconds);
 
 #endif
